@@ -15,13 +15,17 @@ Inductive case :=
 (* ---- exact coordinates: every finite double is m * 2^e; scale all by 2^(-emin) *)
 Definition f_finite (x : float) : bool :=
   match Prim2SF x with S754_zero _ => true | S754_finite _ _ _ => true | _ => false end.
+(* m * 2^e with m odd: strip the trailing zero bits of the mantissa (keeps grid coordinates small) *)
+Fixpoint strip (p : positive) (e : Z) : positive * Z :=
+  match p with xO p' => strip p' (e + 1)%Z | _ => (p, e) end.
 Definition f_exp (x : float) : option Z :=
-  match Prim2SF x with S754_finite _ _ e => Some e | _ => None end.
+  match Prim2SF x with S754_finite _ m e => Some (snd (strip m e)) | _ => None end.
 Definition min_exp (l : list float) : Z :=
   fold_left (fun acc x => match f_exp x with Some e => Z.min acc e | None => acc end) l 2000%Z.
 Definition f_toZ (emin : Z) (x : float) : Z :=
   match Prim2SF x with
-  | S754_finite s m e => let v := Z.shiftl (Zpos m) (e - emin) in if s then Z.opp v else v
+  | S754_finite s m e => let '(m', e') := strip m e in
+                         let v := Z.shiftl (Zpos m') (e' - emin) in if s then Z.opp v else v
   | _ => 0%Z
   end.
 Definition exact_pts (pts : list fpt) : list (@pt ZNum) :=
@@ -76,10 +80,12 @@ Definition judge (c : case) : Z :=
                | None => 1%Z
                | Some o =>
                    let z := exact_pts pts in
+                   let gp := @general_positionb ZNum z in
                    first_false [@graham_structb FloatNum pts o;                                   (* 1 structure (S) *)
                                 turnsb (fun a b c => PrimFloat.leb 0 (fcc pts a b c)) (tl o);      (* 2 tested triples (S) *)
-                                @graham_degenb ZNum z o;                                          (* 3 extreme <= out <= boundary: a test *)
-                                negb (@general_positionb ZNum z) || @graham_gpb ZNum z o] 1%Z    (* 4 general position clause *)
+                                gp || @graham_degenb ZNum z o;     (* 3 degenerate input: extreme <= out <= boundary: a TEST
+                                                                      (in general position conjunct 4 is the stronger statement) *)
+                                negb gp || @graham_gpb ZNum z o] 1%Z                              (* 4 general position clause (A) *)
                end in
       (100 * a + h)%Z
   end.
